@@ -52,6 +52,7 @@ def parseTrap (s : String) : Option TrapKind :=
   | "oobtable" => some .oobTable
   | "nulltable" => some .nullTable
   | "sigmismatch" => some .sigMismatch
+  | "unaligned" => some .unaligned
   | _ => none
 
 def parseHost (s : String) : Option HostFn :=
